@@ -1,14 +1,17 @@
-"""Run scenarios in a fresh interpreter: `python -m harness.fresh` reads a pickled (list of scenarios, options) from stdin, runs
-them one after the other in this one process and writes the pickled list of (trace, extra) to stdout."""
+"""Run scenarios in a fresh interpreter: `python -m harness.fresh` reads a pickled (runner, list of scenarios, options) from stdin,
+runs them one after the other in this one process and writes the pickled list of results to stdout.  runner is "module:function";
+the function takes (scenario, options)."""
 from __future__ import print_function
+import importlib
 import pickle
 import sys
 
 
 def main():
-    from . import fam
-    scs, opts = pickle.load(sys.stdin.buffer)
-    out = [fam._impl_worker((sc, opts)) for sc in scs]
+    runner, scs, opts = pickle.load(sys.stdin.buffer)
+    mod, fn = runner.split(":")
+    f = getattr(importlib.import_module(mod), fn)
+    out = [f((sc, opts)) for sc in scs]
     sys.stdout.buffer.write(pickle.dumps(out, protocol=2))
 
 
